@@ -336,6 +336,11 @@ def _thrift_small(prop, case, f):
 def _cat_minus1(prop, case, f):
     # write_column writes data.cat.codes as they are: in a column without definition levels (has_nulls False / 'infer' / not listed)
     # a missing cell becomes dictionary index -1 = 255 / 65535 / 2^32-1, which is outside the dictionary
+    if prop == "C17":
+        # seen from the reader's side: the schema says REQUIRED, so the handle predicts a plain integer dtype for the labels although
+        # cells are missing (the default, categorical read shows them through code -1)
+        return (f.get("kind") == "predicted_dtype_cannot_hold_the_missing_values_of_the_column" and f.get("declared_required") is True
+                and f.get("default_read_dtype") == "category")
     if f.get("kind") != "invalid_parquet" or f.get("code") != "DICT_INDEX":
         return False
     d = f.get("detail", "")
